@@ -2023,10 +2023,10 @@ func (bc *Blockchain) storeBlock(block *block.Block, txpool *mempool.Pool) error
 		aerchan        = make(chan *state.AppExecResult, len(block.Transactions)/8) // Tested 8 and 4 with no practical difference, but feel free to test more and tune.
 		aerdone        = make(chan error)
 
-		oldFeePerByte, oldBaseExecFee int64
+		oldFeeParams [2 + len(txAttrTypes)]int64
 	)
 	if block.Index > 0 {
-		oldFeePerByte, oldBaseExecFee = bc.FeePerByte(), bc.GetBaseExecFee()
+		oldFeeParams = bc.networkFeeParams()
 	}
 	go func() {
 		var (
@@ -2201,7 +2201,7 @@ func (bc *Blockchain) storeBlock(block *block.Block, txpool *mempool.Pool) error
 	atomic.StoreUint32(&bc.blockHeight, block.Index)
 	// Pooled transactions are not verified again when they come in a block, so
 	// if the fees they were verified with have changed, they are to be rechecked.
-	feesChanged := block.Index > 0 && (bc.FeePerByte() != oldFeePerByte || bc.GetBaseExecFee() != oldBaseExecFee)
+	feesChanged := block.Index > 0 && bc.networkFeeParams() != oldFeeParams
 	bc.memPool.RemoveStale(func(tx *transaction.Transaction) bool {
 		return bc.IsTxStillRelevant(tx, txpool, false) && (!feesChanged || bc.verifyTxNetworkFee(tx) == nil)
 	}, bc)
@@ -3194,6 +3194,9 @@ func (bc *Blockchain) IsTxStillRelevant(t *transaction.Transaction, txpool *memp
 	if t.ValidUntilBlock <= curheight {
 		return false
 	}
+	if !isPartialTx && t.ValidUntilBlock > curheight+bc.GetMaxValidUntilBlockIncrement() {
+		return false
+	}
 	// Signers can be blocked by the block just accepted.
 	if bc.policy.CheckPolicy(bc.dao, t) != nil {
 		return false
@@ -3526,6 +3529,28 @@ func (bc *Blockchain) verifyTxWitnesses(t *transaction.Transaction, block *block
 	}
 
 	return nil
+}
+
+// txAttrTypes lists transaction attribute types Policy sets fees for.
+var txAttrTypes = [...]transaction.AttrType{
+	transaction.HighPriority,
+	transaction.OracleResponseT,
+	transaction.NotValidBeforeT,
+	transaction.ConflictsT,
+	transaction.NotaryAssistedT,
+}
+
+// networkFeeParams returns current Policy values the network fee required from
+// a transaction depends on.
+func (bc *Blockchain) networkFeeParams() [2 + len(txAttrTypes)]int64 {
+	var res [2 + len(txAttrTypes)]int64
+
+	res[0] = bc.FeePerByte()
+	res[1] = bc.GetBaseExecFee()
+	for i, t := range txAttrTypes {
+		res[2+i] = bc.policy.GetAttributeFeeInternal(bc.dao, t)
+	}
+	return res
 }
 
 // verifyTxNetworkFee checks that the network fee of the transaction covers its
